@@ -9,6 +9,10 @@ tie:   generated values x keys x every configuration `Cache.setup('mem://?...')`
        (a) stored form, unpickler calls and results: implementation == model;
        (b) the property itself: what comes back is canon-equal (deep value + type) to what was stored.
        P1-P3 are validated for the real picklers on every generated value (sampling).
+       Registration programs (harness/serial_reg.py): `register_type` calls interleaved with the construction of caches,
+       writes and reads - a type registered before / after cache.setup(), between two caches, written before it was
+       registered, a name registered again with another codec - under every configuration; the model is asked with the
+       registry of the moment of each call (Model/Serial.lean: `reg` is an argument of encode and of decode).
 
 "json where applicable": the json pickler is exercised on JSON-native shapes only (None, bool, int, float, str, lists,
 dicts with str keys, recursively) plus top-level bytes / registered custom types (never handed to json) and top-level
@@ -24,6 +28,7 @@ import json
 from pathlib import Path
 
 from .. import serial as S
+from .. import serial_reg as R
 from .. import vtime
 from ..core import ROOT, Check, Driver, HarnessError, ddmin, proof_stage
 
@@ -34,10 +39,13 @@ TRUSTED = [
     "Lean 4.33.0 kernel; axioms of every theorem audited to be within {propext, Classical.choice, Quot.sound}",
     "hand-written model lean/CashewsVerif/Model/Serial.lean of cashews/serialize.py, tied to the code by this run's correspondence",
     "hypothesis P1 (loads(dumps v) = v, not bytes), P2 (dumps v never starts with '<registered type>:'), P3 (dumps v is not a digit "
-    "string) about pickle/json: hypotheses of decode_encode, validated here by sampling on every generated value, not proved",
+    "string, with or without a leading '-') about pickle/json: hypotheses of decode_encode, validated here by sampling on every generated value, not proved",
     "hypothesis HexMac (MAC output is [0-9a-f]*): proved for every MAC of the shape hexdigest()/f'{s:x}' (hex_mac_of_raw); that hmac's "
     "hexdigest() is such a rendering is trusted",
-    "registered custom codecs satisfy dec(enc v) = v (hypothesis; the harness' own codecs do)",
+    "registered custom codecs satisfy dec(enc v) = v (hypothesis; the harness' own codecs do); across a re-registration of a name the "
+    "hypothesis dec_read(enc_write v) = v of decode_encode_registries is evaluated literally on the harness codecs - where it fails "
+    "(incompatible codec) only implementation == model is compared",
+    "harness isolation of registration programs resets Serializer._type_mapping (the class-level dict) between programs",
     "harness: canonical form of values (harness/serial.py canon), instrumented pickler, protocol encoding",
 ]
 
@@ -126,7 +134,7 @@ def check_hyps(conf: S.Conf, v, hyp):
         d, p1 = None, False
     for name, ok in (("P1", p1),
                      ("P2", d is not None and not (b":" in d and d.split(b":", 1)[0] in S.Serializer._type_mapping)),
-                     ("P3", d is not None and not d.isdigit())):
+                     ("P3", d is not None and not d.isdigit() and not (d[:1] == b"-" and d[1:].isdigit()))):
         h = hyp.setdefault(name, {"checked": 0, "failed": 0, "first_failure": None})
         h["checked"] += 1
         if not ok:
@@ -345,7 +353,37 @@ def report(chk: Check, conf, pairs, origin):
 def corpus_cases():
     for f in sorted((ROOT / "corpus" / PROP).glob("*.json")):
         c = json.loads(f.read_text())
-        yield f.name, conf_from_json(c["config"]), pairs_eval(c["pairs"])
+        if "program" not in c:
+            yield f.name, conf_from_json(c["config"]), pairs_eval(c["pairs"])
+
+
+def corpus_programs():
+    for f in sorted((ROOT / "corpus" / PROP).glob("*.json")):
+        c = json.loads(f.read_text())
+        if "program" in c:
+            yield f.name, R.program_from_json(c["program"], NS)
+
+
+def report_program(chk: Check, steps, origin):
+    probs = R.evaluate_programs([steps], S.Ids(), DRIVER)[0][0]
+    kind = "spec" if any(k == "spec" for k, _ in probs) else "model"
+    small = R.shrink_program(steps, kind, DRIVER)
+    probs = [p for p in R.evaluate_programs([small], S.Ids(), DRIVER)[0][0] if p[0] == kind] or probs
+    replay = {
+        "program": R.program_to_json(small),
+        "problems": [t for _, t in probs][:6],
+        "origin": origin,
+        "replay_cmd": "./check C09 --replay <this file>",
+    }
+    vals = [s[3] for s in small if s[0] == "set"]
+    if kind == "spec":
+        chk.violation(f"serialization does not round-trip when register_type / cache construction / write / read are ordered as in "
+                      f"the program: {probs[0][1]}"[:700], replay,
+                      signature=f"roundtrip-registry:{type(vals[0]).__name__ if vals else '-'}")
+    else:
+        chk.violation(f"correspondence broken: cashews/serialize.py differs from model Serial (registry of the moment) but the "
+                      f"value still round-trips: {probs[0][1]}"[:700],
+                      dict(replay, broken="correspondence Serial model <-> cashews/serialize.py"), signature=None, no_input=True)
 
 
 def gen_case(rng, conf: S.Conf):
@@ -392,7 +430,50 @@ def run(chk: Check) -> int:
     samples = []
     path_hist: dict = {}
     CH = 400
+    prog_states: dict = {}
+    prog_kinds: dict = {}
+    prog_distinct = set()
+    prog_reads = 0
+
+    def run_programs(programs):
+        nonlocal found, evaluations, prog_reads
+        PCH = 300
+        for off in range(0, len(programs), PCH):
+            if found >= 3:
+                break
+            chunk = programs[off:off + PCH]
+            problems, tags, sample_lines = R.evaluate_programs([st for _, st in chunk], ids, DRIVER)
+            bad = sorted((j for j, pr in enumerate(problems) if pr), key=lambda j: (not any(k == "spec" for k, _ in problems[j]), j))
+            seen = set()
+            for j in bad:
+                kind = "spec" if any(k == "spec" for k, _ in problems[j]) else "model"
+                tmpl = chunk[j][0].split(":")[1]
+                if found >= 3 or (kind, tmpl) in seen:
+                    continue
+                seen.add((kind, tmpl))
+                report_program(chk, chunk[j][1], chunk[j][0])
+                found += 1
+            for (origin, steps), tg in zip(chunk, tags):
+                evaluations += 1
+                kind = "corpus" if origin.startswith("corpus:") else origin.split(":")[1]
+                prog_kinds[kind] = prog_kinds.get(kind, 0) + 1
+                prog_reads += sum(1 for s in steps if s[0] == "get")
+                for t in tg:
+                    prog_states[t] = prog_states.get(t, 0) + 1
+                if tg - {"custom_decode_path"}:
+                    src = json.dumps(R.program_to_json(steps))
+                    prog_distinct.add(src)
+                    if sum(1 for x in samples if "program" in x) < 2 and len(src) < 700 and "after" in origin:
+                        samples.append({"program": R.program_to_json(steps), "states": sorted(tg)})
+            for v in [s[3] for _, st in chunk for s in st if s[0] == "set"]:
+                type_hist[type(v).__name__] = type_hist.get(type(v).__name__, 0) + 1
+
+    corpus_progs = [("corpus:" + name, steps) for name, steps in corpus_programs()]
+    nprog_corpus = len(corpus_progs)
+    run_programs(corpus_progs)
     for off in range(0, len(cases), CH):
+        if found >= 3:
+            break
         chunk = cases[off:off + CH]
         problems, tags, sample_lines = evaluate([(c, p) for _, c, p in chunk], ids)
         # report real failing inputs before mere model differences
@@ -422,11 +503,25 @@ def run(chk: Check) -> int:
             samples.extend(sample_lines[:1])
         if found >= 3:
             break
+    # ---- registration programs: the class-level registry changes while caches exist
+    run_programs(R.gen_programs(chk.rng, confs, chk.budget(400, 6000)))
     if proof is not None:
         chk.proof_broken(proof, found > 0)
     chk.coverage.update({
         "evaluations": evaluations,
-        "distinct_nontrivial": len(distinct),
+        "distinct_nontrivial": len(distinct) + len(prog_distinct),
+        "registration_programs": {
+            "programs": sum(prog_kinds.values()), "corpus_programs": nprog_corpus, "by_kind": prog_kinds, "reads_judged": prog_reads,
+            "distinct_nontrivial": len(prog_distinct), "interesting_states_programs": prog_states,
+            "rule": "a program = register_type calls (harness classes, 3 codecs: box, plain, tolerant), cache constructions, set/set_many, "
+                    "get/get_many/get(default None) and raw copies between two caches of one configuration, run with the class-level "
+                    "registry reset to what `import cashews` leaves; six fixed orderings (registered before the cache; after it; between "
+                    "two caches, each reading what the other wrote; the same name registered again with another codec after writes and "
+                    "reads; another name registered between write and read; value written before its type was registered and read "
+                    f"after) x each of the {len(confs)} configurations, plus random programs over two caches, three names, three keys. The model "
+                    "is asked with the list of registrations made so far at each call. Non-trivial iff some read happened in one of "
+                    "the states of interesting_states_programs (custom_decode_path alone does not count)",
+        },
         "rule": "cases = 1..4 (key, value) pairs from VERIF_SEED: values from a recursive generator (depth <= 3) over None/bool/int/float/"
                 "str/bytes/Decimal/date/datetime/time/timedelta/tuple/list/set/frozenset/dict/dataclasses/named tuples with adversarial "
                 "leaves (b'123', b'md5:x_y', '_', ':', empty containers, NaN, -0.0, lone surrogate), or an instance of one of "
@@ -439,7 +534,7 @@ def run(chk: Check) -> int:
                 "a stored None read with default None, or a key containing '_'/':' under a signing configuration (see "
                 "interesting_states_cases; decode_path_cases counts which branch of decode was taken); distinct = distinct (configuration, pairs).",
         "samples": samples,
-        "corpus_cases": ncorpus,
+        "corpus_cases": ncorpus + nprog_corpus,
         "configurations": conf_hist,
         "value_type_histogram": type_hist,
         "interesting_states_cases": interesting,
@@ -457,6 +552,18 @@ def run(chk: Check) -> int:
 def replay(chk: Check, path: str) -> int:
     S.register_boxes()
     c = json.loads(Path(path).read_text())
+    if "program" in c:
+        steps = R.program_from_json(c["program"], NS)
+        probs = R.evaluate_programs([steps], S.Ids(), DRIVER)[0][0]
+        for st in R.program_to_json(steps):
+            print("  step", st)
+        for kind, t in probs:
+            print(f"  [{kind}] {t}")
+        if not probs:
+            print("replay: no disagreement")
+            return 0
+        print(f"VIOLATION property={PROP} replay={path}")
+        return 1
     conf = conf_from_json(c["config"])
     pairs = pairs_eval(c["pairs"])
     probs = one_case_problems(conf, pairs)
